@@ -60,10 +60,37 @@ def catQType (db : Db) (c : Sym) : Except ErrKind Sym :=
 def scaleByPow (ratio : Rat) (exp : Int) (v : Rat) : Except ErrKind Rat :=
   if ratio = 0 ∧ exp < 0 then .error .other else .ok (v * zpowR ratio exp)
 
+/-- `tobase(1.0) - tobase(0.0)` of a row: the increment one step of the unit has in the base unit -/
+def baseIncrement (r : UnitRow) : Except ErrKind Rat :=
+  if !r.ok then .error .other else
+  match r.toBase.apply 1 with
+  | .error e => .error e
+  | .ok b1 =>
+    match r.toBase.apply 0 with
+    | .error e => .error e
+    | .ok b0 => .ok (b1 - b0)
+
+/-- the unit ratio when `zero != 0.0`: `GetInfo` of both units (without `fix_unknown`), then the quotient of
+their base increments; a zero denominator is Python's `ZeroDivisionError` -/
+def ratioByIncrements (db : Db) (qt u w : Sym) : Except ErrKind Rat :=
+  match db.getInfo qt u with
+  | .error e => .error e
+  | .ok ru =>
+    match db.getInfo qt w with
+    | .error e => .error e
+    | .ok rw =>
+      match baseIncrement ru with
+      | .error e => .error e
+      | .ok du =>
+        match baseIncrement rw with
+        | .error e => .error e
+        | .ok dw => if dw = 0 then .error .other else .ok (du / dw)
+
 /-- `_ConvertMatchingExp(quantity_type, from_unit, to_unit, exp, value, in_derived)`: the same unit, or
 exponent 1 outside a derived operand, is the plain conversion; otherwise `zero = Convert(0.0)` is computed
 first: exponent 1 without offset (`zero == 0.0`) is again the plain conversion, everything else scales the
-value by `(Convert(1.0) - zero) ** exp` -/
+value by `ratio ** exp`, where `ratio = Convert(1.0)` when `zero == 0.0` and otherwise (an offset would swallow a
+small ratio in floats) the quotient of the increments the two units have in the base unit -/
 def convertMatchingExp (db : Db) (qt u w : Sym) (exp : Int) (v : Rat) (inDerived : Bool) : Except ErrKind Rat :=
   if u == w || (exp == 1 && !inDerived) then db.convert qt u w v
   else
@@ -71,10 +98,14 @@ def convertMatchingExp (db : Db) (qt u w : Sym) (exp : Int) (v : Rat) (inDerived
     | .error e => .error e
     | .ok c0 =>
       if exp == 1 && c0 == 0 then db.convert qt u w v
-      else
+      else if c0 == 0 then
         match db.convert qt u w 1 with
         | .error e => .error e
-        | .ok c1 => scaleByPow (c1 - c0) exp v
+        | .ok c1 => scaleByPow c1 exp v
+      else
+        match ratioByIncrements db qt u w with
+        | .error e => .error e
+        | .ok ratio => scaleByPow ratio exp v
 
 /-- one operand's pass of the loop in `_MatchQuantities`: the first unit seen for a quantity type is
 kept, every later entry of that type gets that unit and the value is converted accordingly;
